@@ -8,13 +8,13 @@ within the deviation bound are executed.
 Part B (CRASH): real DiskCacher - every byte-prefix of a written cache file is planted and read back; getters that fail
 after i of n lines.
 """
-import os, sys, json, gzip, itertools, threading, collections, shutil
+import os, sys, json, gzip, itertools, threading, collections, shutil, subprocess
 from hashlib import blake2b
 
 from vf.engines import sched
 sched.install()
 
-from vf.core import Check, HarnessError, tmpdir      # noqa: E402
+from vf.core import Check, HarnessError, tmpdir, VERIF, REPO      # noqa: E402
 from vf.lib import cobaenv                            # noqa: E402
 import coba                                           # noqa: E402
 cobaenv.register()
@@ -436,9 +436,54 @@ class C19(Check):
 
     def replay(self, witness, acc):
         self.setup('quick')
+        if witness.get('real'):
+            self.real_runs([witness['spec']], acc); return
         if 'schedule' in witness: self.run_sched(witness['case'], acc, schedule=witness)
         elif witness.get('kind') == 'sched': self.run_sched(witness, acc)
         else: self.run_disk(witness, acc)
+
+    # ---- conformance: the lock protocol on REAL processes (separate interpreters with different hash seeds)
+    def real_runs(self, specs, acc):
+        import signal as _sig
+        env = dict(os.environ, PYTHONPATH=f'{VERIF}:{REPO}')
+        env.pop('PYTHONHASHSEED', None)
+        procs = [(sp, subprocess.Popen([sys.executable, '-B', '-W', 'ignore', '-m', 'vf.lib.realcache', json.dumps(sp)], env=env,
+                                        stdout=subprocess.PIPE, stderr=subprocess.PIPE, text=True, start_new_session=True)) for sp in specs]
+        n = 0
+        for sp, p in procs:
+            feat = f"real processes {sp['second']} key={type(sp['key']).__name__}"
+            wit = {'real': True, 'spec': sp}
+            try:
+                out, err = p.communicate(timeout=150)
+            except subprocess.TimeoutExpired:
+                try: os.killpg(p.pid, _sig.SIGKILL)
+                except ProcessLookupError: pass
+                p.communicate()
+                acc.violation(f'ConcurrentCacher|caller waits forever|{feat}', 'real run did not finish in 150s', wit); continue
+            line = [l for l in out.splitlines() if l.startswith('OBS ')]
+            if not line: raise HarnessError(f'real cache run {sp} produced no observation: {err[-500:]}')
+            o = json.loads(line[-1][4:])
+            full = ['line one', 'line two', 'line three']
+            if o.get('hung'): acc.violation(f'ConcurrentCacher|caller waits forever|{feat}', 'a process was still alive after 60s', wit)
+            if o.get('second.finished_while_writing'):
+                acc.violation(f'ConcurrentCacher|entry accessed while being written|{feat}', f"the second process finished ({o.get('second.result')}) while the writer was inside its getter", wit)
+            if o.get('writer.raised'): acc.violation(f'ConcurrentCacher|writer raised|{feat}', o['writer.raised'], wit)
+            elif o.get('writer.value') != full: acc.violation(f'ConcurrentCacher|caller received an incomplete value|{feat}', f"writer got {o.get('writer.value')}", wit)
+            r = o.get('second.result') or ['hung', None]
+            if sp['second'] == 'get' and (r[0] != 'value' or r[1] != full):
+                acc.violation(f'ConcurrentCacher|caller received an incomplete value|{feat}', f'second process got {r}', wit)
+            if r[0] == 'raised': acc.violation(f'ConcurrentCacher|second caller raised|{feat}', str(r[1]), wit)
+            if o.get('second.getter_calls'): acc.violation(f'ConcurrentCacher|getter ran although the entry is cached|{feat}', 'second process ran its getter', wit)
+            if o.get('cells_nonzero'): acc.violation(f'ConcurrentCacher|shared lock counter not released|{feat}', f"{o['cells_nonzero']} cells non-zero", wit)
+            n += 1
+        return n
+
+    def post(self, acc, tier):
+        specs = [{'key': 'abc', 'second': 'get'}, {'key': 'abc', 'second': 'rmv'}]
+        if tier == 'thorough': specs += [{'key': 7, 'second': 'get'}, {'key': 'openml_042693_arff', 'second': 'get'}, {'key': 7, 'second': 'rmv'}]
+        n = self.real_runs(specs, acc)
+        acc.traces += n
+        return {'real_os_conformance_runs': n}
 
 
 CHECK = C19()
